@@ -47,6 +47,8 @@ def configs(tier):
     for kind in ("positive", "mixed"):
         out.append({"rbm": "sample", "kind": kind, "nv": 2, "nh": 2, "na": 1, "grad": "off"})       # the caller samples under torch.no_grad()
     out.append({"rbm": "binary", "nv": 2, "nh": 1, "grad": "off"})
+    out.append({"rbm": "binary", "nv": 2, "nh": 2, "module_mode": "eval"})          # after nn.Module.eval() was called on the network
+    out.append({"rbm": "purification", "nv": 2, "nh": 1, "na": 1, "module_mode": "eval"})
     out.append({"rbm": "binary", "nv": 2, "nh": 1, "via": "deepcopy"})
     out.append({"rbm": "purification", "nv": 1, "nh": 1, "na": 1, "via": "deepcopy"})
     out.append({"rbm": "purification", "nv": 2, "nh": 1, "na": 2, "via": "pickle"})
@@ -128,6 +130,8 @@ def _binary(ctx, cfg):
     canary = getattr(ctx, "canary", None)
     nv, nh = cfg["nv"], cfg["nh"]
     rbm = _DC.copied(BinaryRBM(nv, nh, gpu=False))
+    if cfg.get("module_mode") == "eval":
+        rbm.eval()              # nn.Module's training flag (torch's own .eval() / .train()) is no part of the kernel
     N.symbolize(rbm, "am")
     par = R.params_of(rbm)
     spar = par
@@ -340,6 +344,8 @@ def _purification(ctx, cfg):
     canary = getattr(ctx, "canary", None)
     nv, nh, na = cfg["nv"], cfg["nh"], cfg["na"]
     rbm = _DC.copied(PurificationRBM(nv, nh, na, gpu=False))
+    if cfg.get("module_mode") == "eval":
+        rbm.eval()
     N.symbolize(rbm, "am")
     par = R.params_of(rbm)
     vs, hs, as_ = R.bits(nv), R.bits(nh), R.bits(na)
